@@ -114,8 +114,20 @@ def peel(p):
             p = p[1]
         elif p[0] == "mcall" and p[1] in ("unwrap", "expect", "as_ref", "as_mut", "as_str", "as_slice", "borrow"):
             p = p[2]
+        elif p[0] == "mcall" and p[1] in ("map_err", "context", "with_context", "or_else", "inspect_err"):
+            p = p[2]  # error-side adaptors: the success value passes through untouched
         else:
             return p
+
+
+def deep_peel(p):
+    """peel() applied at every level of a term: the value with all success-path wrappers (`?`, Ok(..) patterns, error adaptors,
+    borrows) taken off, so that `f(g(x)?)?`, `match f(..) { Ok(v) => v, Err(e) => .. }` and `f(..).or_else(..)?` read alike"""
+    if not isinstance(p, tuple) or not p:
+        return p
+    if isinstance(p[0], str):
+        p = peel(p)
+    return tuple(deep_peel(x) if isinstance(x, tuple) else x for x in p)
 
 
 def spine(p, limit=30):
